@@ -131,3 +131,23 @@ CLAIMED["C10"] = dict(
         "blocks. NOT covered: encoder handles (LZMA encoder init builds price tables), threaded coders' init, "
         "lzma_str_to_filters, failures during lzma_code steady state, filter-chain update.")
 NOT_APPLICABLE.pop("C10", None)
+CLAIMED["C06"] = dict(
+   text="Slicing independence decided per coder on the real code with SYMBOLIC cut points (not sampled slicings): "
+        "simple_code() BCJ wrapper (sliced == one-shot), filter kernels (two calls == one), stream_decode header/padding, "
+        ".lz/.lzma/auto decoders, VLI encode/decode resumable vs single-call, Index encoder; and the encoder-side guarantee "
+        "that in RUN mode the match finder only sees positions with a full look-ahead buffered (lz_encoder window), which "
+        "is what makes encoder output independent of how input arrives.",
+   note="OUTSIDE: lzma_decode() resume points (a genuine slicing defect there, D1 in DESIGN.md, is known from a hand-made "
+        "test and cannot be reached by CBMC), lzma2_decode/block_decode slicing, LZMA encoder byte determinism across "
+        "thread counts, filter chain as text vs structure.")
+NOT_APPLICABLE.pop("C06", None)
+CLAIMED["C01"] = dict(
+   text="Losslessness is decided for the layers under and around the LZMA symbol coder: LZ window geometry and one "
+        "fill_window/move_window step from an arbitrary window state (history and unread data preserved byte for byte, "
+        "positions keep their absolute meaning), declared dictionary size >= the one used (all 2^32 sizes), LZMA1 property "
+        "bytes, BCJ/delta filter round trips.",
+   note="The LZMA symbol coder itself (lzma_encoder*.c <-> lzma_decode(), range coder, optimum parsers, match finders' "
+        "find/skip, LZMA2 chunking, presets, threaded encoder) is OUTSIDE: measured - whole-function symex of lzma_decode does "
+        "not finish; range encoder/decoder equivalence undecided beyond one symbol. So this check does NOT establish "
+        "end-to-end losslessness; it catches defects in the surrounding layers only.")
+NOT_APPLICABLE.pop("C01", None)
